@@ -212,7 +212,52 @@ def run_cli(case):
     return out
 
 
+def run_find(case):
+    """real Class._find_class for simple names from every class, twice (so that the import memo written by the
+    first pass is used by the second); the imports (unqualified packages + memo) are recorded before each query"""
+    from pymoca import ast
+    from vlib.impl.c06 import class_nodes
+    t = parse(case["text"])
+    nodes = class_nodes(t)
+    rng = random.Random(case["seed"])
+    names = sorted({p[-1] for p, _ in nodes if p})
+
+    def imports_state():
+        out = []
+        for p, c in nodes:
+            stars, memo = [], []
+            for k, v in c.imports.items():
+                if k == "*":
+                    stars = [list(x.to_tuple()) for x in v.components]
+                elif isinstance(v, ast.ComponentRef):
+                    memo.append([k, list(v.to_tuple())])
+                else:
+                    return None                     # qualified import clause: outside the modelled fragment
+            if stars or memo:
+                out.append([p, stars, memo])
+        return out
+
+    pairs = [(p, c, k) for p, c in nodes for k in names]
+    if len(pairs) > case.get("max", 40):
+        pairs = rng.sample(pairs, case.get("max", 40))
+    queries = []
+    for _pass in range(2):
+        for p, c, k in pairs:
+            st = imports_state()
+            if st is None:
+                return {"unsupported": True}
+            try:
+                r = c._find_class(ast.ComponentRef(name=k))
+                res = list(r.full_reference().to_tuple())
+            except (ast.ClassNotFoundError, KeyError):
+                res = None
+            queries.append({"xm": st, "p": p, "k": k, "res": res})
+    return {"paths": [p for p, _ in nodes], "queries": queries, "final": imports_state()}
+
+
 def handler(case):
+    if case["kind"] == "find":
+        return run_find(case)
     if case["kind"] == "cli":
         return run_cli(case)
     return run_lib(case)
